@@ -129,6 +129,7 @@ def ex_e2e(ctx, case, test="BS", num_sim=4, seed=1, layout="C", inject=False):
     elif layout == "T":
         fore._data = numpy.ascontiguousarray(fore._data.T).T
     rc = {"exec": "e2e", "args": {"case": case, "test": test, "num_sim": num_sim, "seed": seed, "layout": layout, "inject": inject}}
+    ctx.current_case = rc
     if test == "BS":
         fn, mod, lam, wobs = be.binary_spatial_test, be, rates.sum(axis=1), w.sum(axis=1)
     elif test == "BCL":
@@ -203,6 +204,7 @@ def ex_maps(ctx, case):
         return
     lam = rates.sum(axis=1) * (n_obs / rates.sum())
     rc = {"exec": "maps", "args": {"case": case}}
+    ctx.current_case = rc
     ok, bill, tb = ctx.call(pe.binary_spatial_likelihood, fore, cat)
     ctx.mon("maps:binary_spatial_likelihood", 1)
     if ok:
